@@ -112,7 +112,7 @@ pub fn scalars(seed: u64, tier: Tier) -> Vec<B32> {
 
 pub fn points(seed: u64, tier: Tier) -> Vec<B32> {
     let mut v: Vec<B32> = vec![];
-    v.extend(interval(&[0u8; 32], 0, tier.pick(2048, 16384)));
+    v.extend(interval(&[0u8; 32], 0, tier.pick(2048, 32768)));
     v.extend(interval(&p25519(), -64, 65));
     v.extend(interval(&le_pow2(255), -64, 64));
     v.extend(interval(&[0xffu8; 32], -63, 1));
@@ -200,7 +200,7 @@ pub fn run() -> i32 {
     let seed = ctx.seed;
     let ss = scalars(seed, ctx.tier);
     let ps = points(seed, ctx.tier);
-    ctx.rule = format!("full product scalars x points: {} scalars (every integer in [0,64), [2^254-8,2^254+8], [L-8,L+8], [8L-8,8L+8], [2^255-8,2^255+8), [2^256-16,2^256), RFC 7748 scalars, seeded members) x {} point encodings (every integer u in [0,{}), [p-64,p+64], [2^255-64,2^255+64), [2^256-64,2^256), the complete low-order table with and without bit 255, RFC 7748 vectors, honest public keys, seeded members), each through dryoc and libsodium crypto_scalarmult; plus base-point multiplication for every scalar, DH commutativity, box precomputation and key-exchange session keys; non-trivial = product cell executed in both implementations", ss.len(), ps.len(), ctx.tier.pick(2048, 16384));
+    ctx.rule = format!("full product scalars x points: {} scalars (every integer in [0,64), [2^254-8,2^254+8], [L-8,L+8], [8L-8,8L+8], [2^255-8,2^255+8), [2^256-16,2^256), RFC 7748 scalars, seeded members) x {} point encodings (every integer u in [0,{}), [p-64,p+64], [2^255-64,2^255+64), [2^256-64,2^256), the complete low-order table with and without bit 255, RFC 7748 vectors, honest public keys, seeded members), each through dryoc and libsodium crypto_scalarmult; plus base-point multiplication for every scalar, DH commutativity, box precomputation and key-exchange session keys; non-trivial = product cell executed in both implementations", ss.len(), ps.len(), ctx.tier.pick(2048, 32768));
     ctx.assume("reference 2: pure-Python RFC 7748 ladder over a dumped sub-product (ref/curve_check.py), run by bin/check after this binary");
     ctx.assume("libsodium's ref10 X25519 is the reference (its output buffer is zero when it refuses a blocklisted point, which equals the RFC 7748 result for a clamped scalar)");
     ctx.assume("the 2^512 input space is represented by the stated structural classes (clamping, top bit, twist/curve, small-order component, non-canonical reduction)");
